@@ -331,7 +331,8 @@ def _stores_param(prog, fn, param, seen, depth=0):
     for b in m.blocks:
         for s in b["stmts"]:
             if s["k"] == "assign" and s["p"]["l"] == 1 and any(
-                    isinstance(e, dict) and e.get("name") == "deadline" for e in s["p"]["proj"]):
+                    isinstance(e, dict) and "field" in e and (e.get("name") == "deadline" or "Deadline" in (e.get("ty") or "") or
+                                                              "Instant" in (e.get("ty") or "")) for e in s["p"]["proj"]):
                 term = m.resolve_rvalue(s["rv"])
                 seen.append(term_str(term))
                 uses_param = _mentions(term, lambda x: x[0] == "local" and len(x) > 2 and x[2] == param)
@@ -568,9 +569,10 @@ def rule_C3(prog):
             depth2 = bool(n["inner"]) or callee_loops
             if not depth2:
                 continue
-            if norm_path(path) in PROBE_EXEMPT:
+            cpath = prog.canon(path) if norm_path(path) not in PROBE_EXEMPT and norm_path(path) not in PROBE_TABLE else norm_path(path)
+            if cpath in PROBE_EXEMPT:
                 r.count("exempt_nests")
-                r.samples.append("%s: loop at bb%d exempt: %s" % (path, n["header"], PROBE_EXEMPT[norm_path(path)]))
+                r.samples.append("%s: loop at bb%d exempt: %s" % (path, n["header"], PROBE_EXEMPT[cpath]))
                 continue
             r.instances += 1
             seen_tab.add(path)
@@ -620,17 +622,17 @@ def rule_C3(prog):
                 path, n["header"], len(body), len(cmp_blocks), len(n["inner"]),
                 "probe at bb%d, true edge -> bb%d leaves the nest" % good if ok else (problems or ["no probe in the loop"])))
             if not ok:
-                if norm_path(path) in PROBE_TABLE:
-                    r.find(path, "unprobed-nest", "%s: %s -- %s" % (path, PROBE_TABLE[norm_path(path)], "; ".join(problems) or
+                if cpath in PROBE_TABLE:
+                    r.find(path, "unprobed-nest", "%s: %s -- %s" % (path, PROBE_TABLE[cpath], "; ".join(problems) or
                                                                    "no deadline_exceeded call in the loop"),
                            file=fn.file, line=m.blocks[n["header"]]["term"].get("line", fn.line))
                 else:
                     r.find(path, "unreviewed-nest", "%s contains a depth>=2 comparison loop nest that is neither probed "
                            "nor listed as exempt (%s)" % (path, "; ".join(problems) or "no probe"),
                            file=fn.file, line=fn.line)
-    seen_norm = {norm_path(x) for x in seen_tab}
+    seen_norm = {norm_path(x) for x in seen_tab} | {prog.canon(x) for x in seen_tab}
     for path in PROBE_TABLE:
-        cands = [f for f in prog.fn_list if norm_path(f.path) == path]
+        cands = [f for f in prog.fn_list if norm_path(f.path) == path] or prog.find(path)
         if not cands:
             r.find(path, "table-anchor-lost", "probe table entry %s not found in the crate" % path)
         elif path not in seen_norm:
